@@ -371,9 +371,11 @@ class SimpleCorrelator(AbstractCorrelator):
                 self._segment_store[seq_key] = (ref_num, seq_num)
                 key: str = str(ref_num)
                 segment_status: SegmentStatus
-                if key in self._segment_status_store:
+                if seq_num > 1 and key in self._segment_status_store:
                     segment_status = self._segment_status_store[str(ref_num)]
                 else:
+                    # First segment of a message: the 8-bit reference number may be re-used
+                    # while an entry of an older, finished message is still waiting for receipts
                     # All segments count as being sent until each one is answered or expires,
                     # also those that were not sent yet
                     segment_status = SegmentStatus(
